@@ -1,20 +1,62 @@
 /- Line-protocol driver for the `Schema` model:
    `<Class>\t<key>\x1f<json>\t<key>\x1f<json>…`  ->  the model's to_dict(from_dict(d)) in the same format
-   (derived keys are printed as `<derived>`); `bad-class` when the class is not in the generated tables. -/
+   (derived keys are printed as `<derived>`); `bad-class` when the class is not in the generated tables.
+   `@ctl\t<net>\t<cond tokens>\t<action tokens>` -> what the CURRENT from_dict (Gen.simpleReader) makes of a simple control:
+       `ok\t<condition text>\t<action text>` or `raises <Exception>`;  net = `N|L:<kind>:<name>` joined by \x1f,
+       tokens = `w:<word>` / `u:<lower-case attribute>` / `n:<number>` joined by \x1f.
+   `@app\t<m0>\t<d>` -> `ok|refused\t<names after the call>`; a model = six name spaces (curves;patterns;nodes;links;sources;controls)
+       joined by \x02, names joined by \x1f. -/
 import WntrModel.Model.Schema
+import WntrModel.Model.SchemaSections
 import WntrModel.Gen.SchemaDict
+import WntrModel.Gen.SchemaSections
 open Wntr.Schema
 
 def sep : String := String.singleton (Char.ofNat 31)
+def sep2 : String := String.singleton (Char.ofNat 2)
 
 def parsePair (s : String) : Option (String × String) :=
   match s.splitOn sep with
   | k :: v :: rest => some (k, String.intercalate sep (v :: rest))
   | _ => none
 
+def splitNonEmpty (s : String) (by_ : String) : List String := (s.splitOn by_).filter (· ≠ "")
+
+def parseTok (s : String) : Ctl.Tok :=
+  if s.startsWith "u:" then .up (s.drop 2).toString
+  else if s.startsWith "n:" then .n (s.drop 2).toString
+  else .w (s.drop 2).toString
+
+def parseKind (s : String) : Option Ctl.Kind :=
+  match s with
+  | "junction" => some .junction | "tank" => some .tank | "reservoir" => some .reservoir
+  | "pipe" => some .pipe | "pump" => some .pump | "valve" => some (.valve false) | "gpv" => some (.valve true)
+  | _ => none
+
+def parseNet (s : String) : Ctl.Net :=
+  let es := (splitNonEmpty s sep).filterMap fun e =>
+    match e.splitOn ":" with
+    | reg :: kind :: nm => (parseKind kind).map fun k => (reg, String.intercalate ":" nm, k)
+    | _ => none
+  { node := fun n => (es.find? fun e => e.1 == "N" && e.2.1 == n).map (·.2.2),
+    link := fun n => (es.find? fun e => e.1 == "L" && e.2.1 == n).map (·.2.2) }
+
+def parseModel (s : String) : App.Model Unit Unit Unit Unit :=
+  let secs := (s.splitOn sep2).map fun x => (splitNonEmpty x sep).map fun n => (n, ())
+  { top := (), curves := secs.getD 0 [], patterns := secs.getD 1 [], nodes := secs.getD 2 [], links := secs.getD 3 [],
+    sources := secs.getD 4 [], controls := secs.getD 5 [] }
+
+def renderModel (m : App.Model Unit Unit Unit Unit) : String :=
+  String.intercalate sep2 ([m.curves, m.patterns, m.nodes, m.links, m.sources, m.controls].map fun x => String.intercalate sep (App.names x))
+
 def handle (line : String) : String :=
   let line := (line.splitOn "\n").headD ""
   match line.splitOn "\t" with
+  | ["@ctl", net, cond, act] =>
+    (Ctl.readSimple Gen.simpleReader (parseNet net) ((splitNonEmpty cond sep).map parseTok) ((splitNonEmpty act sep).map parseTok)).render
+  | ["@app", m0, d] =>
+    let r := App.append (parseModel m0) (parseModel d)
+    (if r.2 then "ok" else "refused") ++ "\t" ++ renderModel r.1
   | cls :: kvs =>
     match Gen.tables.find? (fun t => t.cls == cls) with
     | none => "bad-class " ++ cls
